@@ -316,6 +316,10 @@ _sink(struct pcp_server *svr, char *targ, BUF *bufp) {
         if (*cp++ != ' ')
             SCREWUP("size not delimited");
 
+        /* a received name must not lead out of the target directory */
+        if (strchr (cp, '/') != NULL || strcmp (cp, "..") == 0)
+            SCREWUP("unexpected filename");
+
         /* filename is "retrieved" in this if/else block */
         if (targisdir) {
 
